@@ -1209,8 +1209,21 @@ func (p *Core) closeResources(newConf *conf.Conf) {
 
 	if p.api != nil {
 		if closeAPI {
+			// the API server waits for its running handlers before it closes,
+			// and the handler of a configuration edit waits for this routine to take its request:
+			// refuse such requests while the API server closes, otherwise both wait forever.
+			stopRefusing := make(chan struct{})
+			refusingDone := make(chan struct{})
+			go func() {
+				defer close(refusingDone)
+				p.refuseAPIConfigRequests(stopRefusing)
+			}()
+
 			p.api.Close()
 			p.api = nil
+
+			close(stopRefusing)
+			<-refusingDone
 		}
 	}
 
@@ -1293,6 +1306,37 @@ func (p *Core) closeResources(newConf *conf.Conf) {
 			p.logger.Close()
 		}
 		p.logger = nil
+	}
+}
+
+// refuseAPIConfigRequests answers configuration edits with an error
+// until stop is closed. It is used while the API server is being closed.
+func (p *Core) refuseAPIConfigRequests(stop chan struct{}) {
+	err := fmt.Errorf("the API server is being restarted, retry later")
+
+	for {
+		select {
+		case req := <-p.chAPIConfigGlobalPatch:
+			req.res <- err
+
+		case req := <-p.chAPIConfigPathDefaultsPatch:
+			req.res <- err
+
+		case req := <-p.chAPIConfigPathAdd:
+			req.res <- err
+
+		case req := <-p.chAPIConfigPathPatch:
+			req.res <- err
+
+		case req := <-p.chAPIConfigPathReplace:
+			req.res <- err
+
+		case req := <-p.chAPIConfigPathDelete:
+			req.res <- err
+
+		case <-stop:
+			return
+		}
 	}
 }
 
